@@ -776,7 +776,7 @@ func main() { harness.Main("C12", "fault_enumeration", run) }
 
 func run(r *harness.Run) {
 	verifhook.Clock = func() time.Time { return vnow }
-	r.Rule("(A) deviation-bounded DFS (bound B) from the nominal scenario over: batch of 1-2 requests (server, per-key-ID signature none/valid/made-by-other-key for two ed25519 IDs, an rsa signature, timestamp from a 9-point boundary menu), database state per (server,key) in {current, absent, stale, expired, wrong key, valid far in the future}, two fetchers each in {right, error, empty, wrong key, partial, extra unsolicited keys, right key already past its validity, older copy, key since retired (expired_ts)}, strict/lenient rule, database fetch/store errors, with the real KeyRing under a virtual clock; oracle = reference acquisition model (soundness: success only under a supplied key that verifies and was valid at the timestamp; completeness: success whenever database / first answering fetcher supplies one) + call-trace clauses (fetchers only asked for absent/stale keys, in order, fetched keys stored). (B) full product for CheckKeys. (C) DirectKeyFetcher: every assignment of direct/notary response modes to 3 servers + local name. (D) PerspectiveKeyFetcher: every list of <=3 entries over 6 entry modes. Non-trivial = distinct scenario.")
+	r.Rule("(A) deviation-bounded DFS (bound B) from the nominal scenario over: batch of 1-2 requests (server, per-key-ID signature none/valid/made-by-other-key for two ed25519 IDs, an rsa signature, timestamp from a 9-point boundary menu), database state per (server,key) in {current, absent, stale, expired, wrong key, valid far in the future}, two fetchers each in {right, error, empty, wrong key, partial, extra unsolicited keys, right key already past its validity, older copy, key since retired (expired_ts)}, strict/lenient rule, database fetch/store errors, with the real KeyRing under a virtual clock; oracle = reference acquisition model (soundness: success only under a supplied key that verifies and was valid at the timestamp; completeness: success whenever database / first answering fetcher supplies one) + call-trace clauses (fetchers only asked for absent/stale keys, in order, fetched keys stored). (A') batches of 7 ... 257 (thorough ... 4097) requests with one or two bad requests in the positions a chunked loop would lose. (B) full product for CheckKeys. (C) DirectKeyFetcher: every assignment of direct/notary response modes to 3 servers + local name. (D) PerspectiveKeyFetcher: every list of <=3 entries over 6 entry modes. Non-trivial = distinct scenario.")
 	r.Assume("ed25519 trusted", "unsolicited keys returned by a fetcher may or may not replace database keys: either verdict is accepted when only such a key decides")
 	r.OnReplay("scenario", func(raw json.RawMessage) error {
 		var sc scenario
@@ -848,6 +848,45 @@ func run(r *harness.Run) {
 		}
 	}
 	r.Sample("checkkeys", ckCase{"s1.org", "s1.org", 0, "good"})
+	// (A') large batches: one result per request, in request order, whatever the batch size. Sizes around the powers of two
+	// at which an implementation might start to chunk or parallelise; every request genuine except one or two in the
+	// positions where a chunked loop would lose them (first, middle, the last three), which are forged / unsigned / signed
+	// but asked for an instant beyond the key's validity; database current, strict rule.
+	var big []scenario
+	for _, n := range r.PickInts([]int{7, 8, 9, 31, 33, 63, 64, 65, 71, 73, 127, 129, 257}, []int{7, 8, 9, 15, 16, 17, 31, 32, 33, 63, 64, 65, 66, 67, 71, 72, 73, 127, 128, 129, 255, 256, 257, 511, 513, 1023, 1025, 4097}) {
+		good := reqSpec{Server: "s1.org", Sigs: [3]int{1, 0, 0}, AtTS: N - 3_600_000}
+		for _, bad := range []reqSpec{{Server: "s1.org", Sigs: [3]int{2, 0, 0}, AtTS: N - 3_600_000}, {Server: "s1.org", Sigs: [3]int{0, 0, 0}, AtTS: N - 3_600_000}, {Server: "s2.org", Sigs: [3]int{1, 0, 0}, AtTS: N + 7*day + 1}} {
+			for _, pos := range [][]int{{n - 1}, {n - 2}, {n - 3}, {0}, {n / 2}, {n - 1, 0}, {n - 7 + n%7}} {
+				sc := scenario{Fetchers: []int{0, 0}, Strict: true}
+				for i := 0; i < n; i++ {
+					sc.Reqs = append(sc.Reqs, good)
+				}
+				ok := true
+				for _, p := range pos {
+					if p < 0 || p >= n {
+						ok = false
+						break
+					}
+					sc.Reqs[p] = bad
+				}
+				if ok {
+					big = append(big, sc)
+				}
+			}
+		}
+	}
+	r.Parallel(len(big), func(i int) {
+		if err := runScenario(r, &big[i]); err != nil {
+			var badAt []int
+			for j, q := range big[i].Reqs {
+				if q.Sigs[0] != 1 || q.Server != "s1.org" {
+					badAt = append(badAt, j)
+				}
+			}
+			r.Violation(fmt.Sprintf("batch:n=%d:bad=%v:%v", len(big[i].Reqs), badAt, big[i].Reqs[badAt[0]]), err.Error(), "scenario", big[i])
+		}
+	})
+	r.Count("large_batches", int64(len(big)))
 	// (C)
 	three := []string{"s1.org", "s2.org", "s3.org"}
 	dmodes := []string{"good", "error", "wrongname", "badsig", "pastvalid", "shortkey", "zerovalid"}
